@@ -51,6 +51,21 @@ def copy_tree(n):
                             n.flow_style)
 
 
+def is_tree(n, seen=None):
+    """No node object is reachable twice (no aliases, no cycles)."""
+    seen = seen if seen is not None else set()
+    if n is None:
+        return True
+    if id(n) in seen:
+        return False
+    seen.add(id(n))
+    if isinstance(n, yaml.ScalarNode):
+        return True
+    if isinstance(n, yaml.SequenceNode):
+        return all(is_tree(x, seen) for x in n.value)
+    return all(is_tree(k, seen) and is_tree(v, seen) for k, v in n.value)
+
+
 def plain_view(n):
     """Plain-data view of a node tree: (kind, tag, value)."""
     if isinstance(n, yaml.ScalarNode):
